@@ -651,7 +651,7 @@ impl Disk {
                 let [sec_beg,_sec_end] = self.boot_sector.root_dir_sec_rng();
                 let lsec = sec_beg as usize + loc.entry.unwrap() / entries_per_sector;
                 let entry_beg = (lsec - sec_beg as usize) * entries_per_sector;
-                for i in entry_beg..entry_beg+entries_per_cluster {
+                for i in entry_beg..entry_beg+entries_per_sector {
                     data.append(&mut loc.dir.get_raw_entry(&Ptr::Entry(i)).to_vec());
                 }
                 let [cyl,head,sec] = self.get_chs(&Ptr::LogicalSector(lsec))?;
